@@ -906,9 +906,14 @@ Definition get_event (v : val) : option event :=
   end.
 
 (* status codes in an observed trace must be those of the exception table *)
+(* ... and the property's own numbers: an HTTPNotFound that is the response is a 404, an HTTPForbidden a 403
+   (framework-made ones: the class codes; user subclasses of the generator keep them) *)
 Definition status_ok (W : world) (v : val) : bool :=
   match v with
-  | VL [VI 1%Z; VI e; VI st] => Z.eqb st (Z.of_N (status_of W (Z.to_N e)))
+  | VL [VI 1%Z; VI e; VI st] =>
+      Z.eqb st (Z.of_N (status_of W (Z.to_N e)))
+      && (if isa W cn_HTTPNotFound (Z.to_N e) then Z.eqb st 404 else true)
+      && (if isa W cn_HTTPForbidden (Z.to_N e) then Z.eqb st 403 else true)
   | _ => true
   end.
 Definition event_status_ok (W : world) (v : val) : bool :=
